@@ -241,6 +241,25 @@ Theorem crdt_mutual_trust_same_signers (pol : peer -> tpolicy) (pub : list sdelt
 Proof. exact (mutual_trust_agree pol pub x y). Qed.
 Print Assumptions crdt_mutual_trust_same_signers.
 
+(* which updates arrive at all: gossipsub forwards a message only after the forwarder's own validator accepted it, so an
+   update travels along links whose intermediate peers all trust its signer; whatever reaches a peer is trusted by it *)
+Theorem crdt_deliverable_needs_trust (n : nat) (pol : peer -> tpolicy) (links : list link) (s x : peer) :
+  deliverable n pol links s x = true -> trusts pol x s = true.
+Proof. exact (deliverable_needs_trust n pol links s x). Qed.
+Print Assumptions crdt_deliverable_needs_trust.
+
+(* two peers that the same published updates can reach ("have exchanged all updates") hold the same members, whatever the
+   order and the forwarder of each arrival: the clause H3 checks between every comparable pair *)
+Theorem crdt_reachable_peers_converge (n : nat) (pol : peer -> tpolicy) (links : list link) (pub : list sdelta)
+        (x y : peer) (ax ay : list arrival) (k : key) :
+  Forall wf_delta (map sd_delta pub) ->
+  (forall d, In d pub -> deliverable n pol links (sd_signer d) x = deliverable n pol links (sd_signer d) y) ->
+  Permutation (map snd ax) (filter (fun d => deliverable n pol links (sd_signer d) x) pub) ->
+  Permutation (map snd ay) (filter (fun d => deliverable n pol links (sd_signer d) y) pub) ->
+  present (pinset_of pol x ax) k = present (pinset_of pol y ay) k.
+Proof. exact (reachable_peers_converge n pol links pub x y ax ay k). Qed.
+Print Assumptions crdt_reachable_peers_converge.
+
 (* ------------------------------------------------------------------ hooks (layer C) *)
 
 (* every merge that changes the value of k (appears, changes, disappears) emits the matching hook: false as written *)
@@ -318,3 +337,7 @@ Proof. exact line_example. Qed.
 Example batch_empty_batch_example :
   let s := brun (mk_bcfg 10 3 true true) s28_schedule in committed s = [] /\ t_chan (tm s) = false /\ tlog s = [(1, false)].
 Proof. exact no_empty_commit_after_fix. Qed.
+Example relay_must_trust_signer_example :
+  trusts line_pol_b 1 3 = true /\ deliverable 3 line_pol_b [(1, 2); (2, 3)] 3 1 = false /\
+  deliverable 3 line_pol_b [(1, 2); (2, 3)] 1 3 = true /\ deliverable 3 line_pol [(1, 2); (2, 3)] 3 1 = true.
+Proof. exact relay_must_trust_signer. Qed.
